@@ -418,3 +418,18 @@ def tree_position_family():
                 for o in outer:
                     out.append(o % (w % f))
     return list(dict.fromkeys(out))
+
+
+
+def sibling_ranges_family():
+    """two (or three) sibling repetitions in one concatenation, every combination of open / closed lower and upper bounds:
+    the sum of two variant ranges (bounded + bounded, open + closed, closed + open) in the depth and size folds"""
+    bounds = [":0,2", ":1,", ":1,3", ":2", ":0,", ":3,", "", ":0,1", ":2,4"]
+    bodies = [("a/", "b/"), ("a/", "/b"), ("a", "b/"), ("*/", "b/")]
+    out = []
+    for b1 in bounds:
+        for b2 in bounds:
+            for x, y in bodies:
+                core = "<%s%s><%s%s>" % (x, b1, y, b2)
+                out += [core + "c", "x/" + core + "c", core, "{" + core + "c,d}", core + "<c/:1,2>d"]
+    return list(dict.fromkeys(out))
